@@ -13,7 +13,8 @@ import importlib
 import numpy as np
 
 from . import core
-from .core import SymReal, SymInt, SymBool
+from .core import SymReal, SymInt, SymBool, SymDec
+import decimal as _decimal
 
 _float = builtins.float
 _int = builtins.int
@@ -55,6 +56,28 @@ class Float(_float, metaclass=_FloatMeta):
         if p is not None:
             return Float(p)
         return _float(x)
+
+
+class _DecMeta(type):
+    def __instancecheck__(cls, obj):
+        return isinstance(obj, (_decimal.Decimal, SymDec))
+
+
+class DecimalStub(metaclass=_DecMeta):
+    """stand-in for the name ``Decimal`` inside one library module: SymDec proxies count as Decimal,
+    Decimal(x) of a proxy/float is a SymDec / real Decimal.  (Real Decimal refuses mixed float arithmetic;
+    the model is more permissive, so it can only miss such TypeErrors, never invent a failure.)"""
+
+    def __new__(cls, x=0):
+        if isinstance(x, SymDec):
+            return x
+        if isinstance(x, SymReal):
+            return SymDec(x.t)
+        if isinstance(x, SymInt):
+            return SymDec(core.z3.ToReal(x.t))
+        if core.ENG is not None and isinstance(x, (_float, _int)) and not isinstance(x, bool):
+            return SymDec(core.lift(x))
+        return _decimal.Decimal(x)
 
 
 class _IntMeta(type):
